@@ -41,7 +41,10 @@ def gen_address(rng, for_write, files=FILES):
         t = rng.choice("NBFL")
         f = rng.choice(FILES[t])
         if rng.random() < 0.35:
-            cnt = rng.randint(2, min(40 if t in "NB" else 20, 256 - elem)) if elem < 255 else None
+            # reads up to the 236 data bytes a PCCC typed read carries (replies of 257..280 bytes cross the 256-byte recv of the
+            # transport); writes stay small
+            big = not for_write and rng.random() < 0.4
+            cnt = rng.randint(2, min((118 if big else 40) if t in "NB" else (59 if big else 20), 256 - elem)) if elem < 255 else None
             if cnt:
                 return case(f"{t}{f}:{elem}") + "{%d}" % cnt
         return case(f"{t}{f}:{elem}")
@@ -193,9 +196,20 @@ def run(ctx):
                         res.dont_care("bad-address-not-in-a-listed-rejection-class")
                         continue
                     ncmd = len(dev.commands)
-                    st, out = b.call("read", drv.read, text) if rng.random() < 0.5 else b.call("write", drv.write, (text, 1))
+                    # alone, or among valid addresses of the same call (first / middle / last): rejected all the same
+                    r_ = rng.random()
+                    others = [f"N7:{rng.randrange(10)}", f"B3:{rng.randrange(4)}"]
+                    pos = rng.randrange(3)
+                    if r_ < 0.3:
+                        st, out = b.call("read", drv.read, text)
+                    elif r_ < 0.55:
+                        st, out = b.call("write", drv.write, (text, 1))
+                    elif r_ < 0.8:
+                        st, out = b.call("read", drv.read, *(others[:pos] + [text] + others[pos:]))
+                    else:
+                        st, out = b.call("write", drv.write, *([(o_, 1) for o_ in others[:pos]] + [(text, 1)] + [(o_, 1) for o_ in others[pos:]]))
                     res.ev()
-                    res.seen("reject", a[1], text[:1].upper())
+                    res.seen("reject", a[1], text[:1].upper(), "alone" if r_ < 0.55 else "among-valid")
                     if st != "exc" or not isinstance(out, RequestError):
                         res.violation(f"malformed-address-accepted:{a[1]}", f"{text!r} ({a[1]}) -> {out!r:.160} instead of RequestError; controller received {len(dev.commands) - ncmd} command(s)", {"address": text})
                     continue
